@@ -8,6 +8,24 @@ L2: real `Search.search` (RandomSearch, CBO/ET, RegularizedEvolution; serial bac
     the returned table, the `n` of every `ask(n)`, `search.stopped`.
 L3: the property's inequality itself on the real counts: for every call with max_evals=n>=0 whose own
     timeout did not expire  n <= e < n + W  (e == n when strict), and len(df) == sum of all e so far.
+
+A scenario is a history of search() calls on ONE OR SEVERAL search objects and a process environment:
+    {"W", "backend", "durs", "cls",                  # cls: class of the (single) search object of a legacy scenario
+     "objs": [{"cls", "ev", "log_dir"}, ...],        # optional: search objects; "ev" = index of the evaluator object
+                                                     #   they are constructed on (shared when equal); "log_dir" =
+                                                     #   "abs:<dir>" | "rel:<path>" ("rel:." = ".") | "default" (not passed)
+     "calls": [{"kind", "n", "t", "o", "cd_after", "cd_in"}, ...]}
+"o" = index of the search object the call is made on; an object is constructed right before its first
+call, or - with "at": i in its entry - right before the i-th call of the history (0 = up-front; an object
+may also be constructed and never called), in the working directory of that moment; "cd_after": the process changes its working directory to
+that directory after the call returned; "cd_in": [k, dir] = the k-th run-function invocation of this call
+changes the working directory.  All directories live under one temporary root, the process starts every
+scenario in <root>/w0 and the working directory is restored afterwards.  A search object is judged on the
+table of ITS calls (the property speaks of "earlier calls on the same search object").  Discipline: a log
+directory holds the results of one search at a time (the constructor renames the results file it finds
+there) -- a search object is over as soon as another one is constructed or called in its directory; calls
+on an object that is over are neither generated nor judged.  Search objects with different directories
+use an evaluator object in any order: one after the other, all constructed up-front, or in turns.
 """
 import asyncio
 import json
@@ -22,7 +40,7 @@ from .common import HarnessError
 
 TICK = 1.0  # one virtual second per tick (serial backend); `timeout` must be an int of seconds
 
-_state = {"count": 0, "durs": [0], "mode": "instant", "lock": threading.Lock()}
+_state = {"count": 0, "durs": [0], "mode": "instant", "lock": threading.Lock(), "ids": [], "in_call": 0, "cd_in": None}
 
 
 def _job_status_cancelling(job):
@@ -31,10 +49,21 @@ def _job_status_cancelling(job):
     return job.status is JobStatus.CANCELLING
 
 
+def _invoked(jid):
+    """bookkeeping of one run-function invocation (caller holds the lock on the thread backend); the
+    process environment of the scenario: the k-th invocation of the current call may change the cwd"""
+    _state["count"] += 1
+    _state["ids"].append(int(jid))
+    _state["in_call"] += 1
+    cd = _state["cd_in"]
+    if cd is not None and _state["in_call"] == cd[0]:
+        os.chdir(cd[1])
+
+
 async def _run_async(job):
     """serial backend: `d` virtual ticks, polls the status every tick (cooperative cancel)"""
-    _state["count"] += 1
     jid = job["job_id"]
+    _invoked(jid)
     d = _state["durs"][jid % len(_state["durs"])]
     k = 0
     while k < d:
@@ -48,7 +77,7 @@ async def _run_async(job):
 def _run_thread(job):
     """thread backend (real time): instant, or runs until it observes CANCELLING (+0.25 s margin)"""
     with _state["lock"]:
-        _state["count"] += 1
+        _invoked(job["job_id"])
     if _state["mode"] == "until_cancel":
         t0 = _time.time()
         while not _job_status_cancelling(job) and _time.time() - t0 < 30:
@@ -90,7 +119,11 @@ def lean_call(c, env):
     }
 
 
+HPS = ("x", "k")  # names of the hyperparameters of the problem
+
+
 def _make_search(cls, evaluator, log_dir, trace, clock):
+    """`log_dir` None = the argument is not passed (the default ".")"""
     from deephyper.hpo import CBO, HpProblem, RandomSearch, RegularizedEvolution
 
     problem = HpProblem()
@@ -112,53 +145,134 @@ def _make_search(cls, evaluator, log_dir, trace, clock):
         kw = dict(surrogate_model="ET", surrogate_model_kwargs={"n_estimators": 5}, n_initial_points=3)
     if cls == "RegularizedEvolution":
         kw = dict(population_size=4, sample_size=2)
-    return Spy(problem, evaluator, random_state=7, log_dir=log_dir, **kw)
+    if log_dir is not None:
+        kw["log_dir"] = log_dir
+    return Spy(problem, evaluator, random_state=7, **kw)
+
+
+def objs_of(scn):
+    """the search objects of a scenario (a legacy scenario has one, in an absolute log directory)"""
+    return scn.get("objs") or [{"cls": scn["cls"], "ev": 0, "log_dir": "abs:L0"}]
+
+
+WORK_DIRS = ("w0", "w1", "w2", "w3")  # directories the process may be in (all under the scenario's root)
+
+
+def _parts(path):
+    return [x for x in path.replace("\\", "/").split("/") if x not in ("", ".")]
+
+
+def _cwd_parts(root):
+    """the working directory as components under the scenario's root"""
+    here = os.path.realpath(os.getcwd())
+    if here == root:
+        return []
+    if here.startswith(root + os.sep):
+        return _parts(here[len(root) + 1:])
+    return ["<outside>"] + _parts(here)
+
+
+def _table_facts(df):
+    """(column problem or None, sorted job ids of the table or None) of a returned DataFrame"""
+    cols = [str(c) for c in df.columns]
+    need = [f"p:{h}" for h in HPS] + ["objective", "job_id", "job_status"]
+    bad = None
+    if any(c not in cols for c in need) or any(not c.startswith("m:") for c in cols if c not in need) \
+            or len(set(cols)) != len(cols):
+        bad = cols[:12]
+    ids = None
+    if "job_id" in cols:
+        try:
+            ids = sorted(int(v) for v in df["job_id"].tolist())
+        except Exception:
+            ids = [str(v) for v in df["job_id"].tolist()][:20]
+            bad = bad or cols[:12]
+    return bad, ids
 
 
 def run_scenario(scn):
-    """Runs one sequence of search() calls on the real code; returns the observations (pure data)."""
+    """Runs one history of search() calls on the real code; returns the observations (pure data)."""
     from deephyper.evaluator import Evaluator
     from . import vloop
 
     W, backend = scn["W"], scn["backend"]
     serial = backend == "serial"
-    log_dir = tempfile.mkdtemp(prefix="c03_")
+    specs = objs_of(scn)
+    origin = os.getcwd()
+    root = os.path.realpath(tempfile.mkdtemp(prefix="c03_"))
+    for d in WORK_DIRS:
+        os.makedirs(os.path.join(root, d))
     trace = []
-    obs = {"calls": [], "error": None}
+    obs = {"calls": [], "error": None, "objs": {}}
     vt = None
+    evs, searches, rows_before = {}, {}, {}
     try:
+        os.chdir(os.path.join(root, scn.get("cwd0", "w0")))
         if serial:
             vt = vloop.install()
             vt.reset()
             vt.max_iterations = 150_000  # scenarios need ~1e3 loop iterations; a live-locking tree must not cost 1e6 each
             clock = vt.now
             _state["durs"] = scn.get("durs") or [0]
-            ev = Evaluator.create(_run_async, method="serial", method_kwargs={"num_workers": W})
         else:
             vloop.uninstall()
             clock = _time.time
-            ev = Evaluator.create(_run_thread, method="thread", method_kwargs={"num_workers": W})
-        search = _make_search(scn["cls"], ev, log_dir, trace, clock)
-        rows_before = 0
-        for c in scn["calls"]:
+        def construct(o, i):
+            # the object is constructed now, in the working directory of now
+            spec = specs[o]
+            here = _cwd_parts(root)
+            ld = spec.get("log_dir", "abs:L0")
+            if ld == "default":
+                arg, where = None, here
+            elif ld.startswith("rel:"):
+                arg, where = ld[4:], here + _parts(ld[4:])
+            else:
+                arg, where = os.path.join(root, ld[4:]), _parts(ld[4:])
+            obs["objs"][str(o)] = {"cwd": here, "dir": where, "before_call": i}
+            if spec["ev"] not in evs:
+                if serial:
+                    evs[spec["ev"]] = Evaluator.create(_run_async, method="serial", method_kwargs={"num_workers": W})
+                else:
+                    evs[spec["ev"]] = Evaluator.create(_run_thread, method="thread", method_kwargs={"num_workers": W})
+            searches[o] = _make_search(spec["cls"], evs[spec["ev"]], arg, trace, clock)
+            rows_before[o] = 0
+
+        for i, c in enumerate(scn["calls"]):
+            for j, sp in enumerate(specs):
+                if sp.get("at") == i and j not in searches:
+                    construct(j, i)
+            o = c.get("o", 0)
+            cwd_before = _cwd_parts(root)
+            if o not in searches:
+                construct(o, i)
+            search = searches[o]
             kw = call_kwargs(c)
             del trace[:]
-            c0 = _state["count"]
+            c0, i0 = _state["count"], len(_state["ids"])
             _state["mode"] = "until_cancel" if (not serial and c.get("expire")) else "instant"
+            _state["in_call"] = 0
+            cd = c.get("cd_in")
+            _state["cd_in"] = (int(cd[0]), os.path.join(root, cd[1])) if cd else None
             T0 = clock()
-            rec = {"raised": None}
+            rec = {"raised": None, "obj": o, "cwd_before": cwd_before}
             try:
                 df = search.search(**kw)
                 rows = 0 if df is None else int(len(df))
+                if df is not None:
+                    rec["cols_bad"], rec["table_ids"] = _table_facts(df)
             except ValueError as e:
                 rec["raised"] = "ValueError"
-                rows = rows_before
+                rows = rows_before[o]
                 if c["kind"] != "X":
                     rec["raised"] = f"ValueError: {e}"[:200]
+            finally:
+                _state["cd_in"] = None
+            rec["cwd_after"] = _cwd_parts(root)
             rec["evals"] = _state["count"] - c0
+            rec["eval_ids"] = sorted(_state["ids"][i0:])
             rec["rows"] = rows
-            rec["rows_added"] = rows - rows_before
-            rows_before = rows
+            rec["rows_added"] = rows - rows_before[o]
+            rows_before[o] = rows
             rec["asks"] = [x[1] for x in trace if x[0] == "ask"]
             rec["stopped"] = bool(search.stopped)
             env = []
@@ -176,14 +290,23 @@ def run_scenario(scn):
             rec["env"] = env
             rec["own_timeout_expired"] = any(e[1] for e in env)
             obs["calls"].append(rec)
+            if c.get("cd_after"):
+                os.chdir(os.path.join(root, c["cd_after"]))
+    except Exception as e:  # anything else the real code raises is reported by the oracle
+        obs["error"] = f"{type(e).__name__}: {e}"[:300].replace(root, "<root>")
+    finally:
+        _state["cd_in"] = None
         try:
-            ev.close()
+            os.chdir(origin)
         except Exception:
             pass
-    except Exception as e:  # anything else the real code raises is reported by the oracle
-        obs["error"] = f"{type(e).__name__}: {e}"[:300]
-    finally:
-        shutil.rmtree(log_dir, ignore_errors=True)
+        for ev in evs.values():
+            try:
+                ev.close()
+            except Exception:
+                pass
+        del _state["ids"][:]
+        shutil.rmtree(root, ignore_errors=True)
     return obs
 
 
@@ -202,13 +325,15 @@ def kinds_of(scn, obs=None, upto=None):
 
 
 def oracle(scn, obs):
-    """-> list of (clause, call index, detail) for the property's own statement."""
+    """-> list of (clause, call index, detail) for the property's own statement; every search object is
+    judged on its own calls ("on top of whatever earlier calls on the same search object performed")"""
     bad = []
     if obs["error"]:
         return [("raises", len(obs["calls"]), obs["error"])]
     W = scn["W"]
-    total = 0
+    total, own_ids = {}, {}
     for i, (c, r) in enumerate(zip(scn["calls"], obs["calls"])):
+        o = c.get("o", 0)
         if r["raised"]:
             if c["kind"] != "X":
                 bad.append(("raises", i, r["raised"]))
@@ -219,11 +344,18 @@ def oracle(scn, obs):
             bad.append(("invalid-timeout-accepted", i, r))
             continue
         e = r["evals"]
-        total += e
-        if r["rows"] != total:
-            bad.append(("table-rows", i, {"rows": r["rows"], "sum_of_evals": total}))
+        total[o] = total.get(o, 0) + e
+        own_ids[o] = sorted(own_ids.get(o, []) + list(r.get("eval_ids") or []))
+        if r["rows"] != total[o]:
+            bad.append(("table-rows", i, {"rows": r["rows"], "sum_of_evals": total[o]}))
         if r["rows_added"] != e:
             bad.append(("table-rows", i, {"rows_added": r["rows_added"], "evals": e}))
+        if r.get("cols_bad"):
+            # "a table holding the evaluations": its columns are the declared ones (p:<hyperparameter>, objective,
+            # job_id, job_status, m:<metadata>), not data values of a row read as header
+            bad.append(("table-columns", i, {"columns": r["cols_bad"]}))
+        elif r.get("table_ids") is not None and "eval_ids" in r and r["table_ids"] != own_ids[o]:
+            bad.append(("table-evaluations", i, {"job_ids_in_table": r["table_ids"][:40], "job_ids_evaluated": own_ids[o][:40]}))
         k = c["kind"]
         if k in "PSBQ" and c["n"] >= 0:
             n = c["n"]
@@ -237,13 +369,92 @@ def oracle(scn, obs):
     return bad
 
 
+def _obj_dir(scn, obs, o):
+    """resolved log directory of object `o` (observed when it was constructed; None if it never was)"""
+    rec = (obs or {}).get("objs", {}).get(str(o))
+    return None if rec is None else tuple(rec["dir"])
+
+
+def _constructed_before(scn, obs, i):
+    """objects constructed before or for call `i`, in the order of construction (observed; the objects
+    called, if the run stopped before)"""
+    recs = (obs or {}).get("objs") or {}
+    got = sorted((r["before_call"], int(o)) for o, r in recs.items() if r["before_call"] <= i)
+    out = [o for _, o in got]
+    for c in scn["calls"][: i + 1]:
+        if c.get("o", 0) not in out:
+            out.append(c.get("o", 0))
+    return out
+
+
+def options_of(scn, obs, i):
+    """the non-default dimensions the (shrunk) failing history uses, for the fingerprint: other search objects
+    and what they share with the object of the failing call, objects constructed before they are needed, how
+    the log directory was given, changes of the working directory"""
+    calls = scn["calls"][: i + 1]
+    specs = objs_of(scn)
+    out = []
+    f = calls[-1].get("o", 0)
+    others = [o for o in _constructed_before(scn, obs, i) if o != f]
+    if others:
+        rel = set()
+        for o in others:
+            same_ev = specs[o]["ev"] == specs[f]["ev"]
+            da, db = _obj_dir(scn, obs, o), _obj_dir(scn, obs, f)
+            same_dir = da is not None and da == db
+            rel.add("+".join(x for x, y in (("evaluator", same_ev), ("log_dir", same_dir)) if y) or "nothing")
+        out.append("other-search-shares=" + "/".join(sorted(rel)))
+        first_call = {}
+        for j, c in enumerate(calls):
+            first_call.setdefault(c.get("o", 0), j)
+        recs = (obs or {}).get("objs") or {}
+        if any(recs.get(str(o), {}).get("before_call", first_call.get(o, 0)) < first_call.get(o, len(calls)) for o in others + [f]):
+            out.append("constructed=before-use")
+    ld = specs[f].get("log_dir", "abs:L0")
+    if not ld.startswith("abs:"):
+        out.append("log_dir=" + ("default" if ld == "default" else "relative"))
+    cds = set()
+    if any(c.get("cd_after") for c in calls[:-1]):  # (after the failing call: no effect on it)
+        cds.add("between-calls")
+    if any(c.get("cd_in") for c in calls):
+        cds.add("in-run-function")
+    if cds:
+        out.append("chdir=" + "+".join(sorted(cds)))
+    return out
+
+
 def fingerprint(clause, scn, obs, i):
-    return f"C03|{clause}|Search.search|history={','.join(kinds_of(scn, obs, i)) or '-'};call={scn['calls'][i]['kind']}"
+    ks = kinds_of(scn, obs)
+    objs = []
+    for c in scn["calls"][: i + 1]:
+        if c.get("o", 0) not in objs:
+            objs.append(c.get("o", 0))
+    several = len(_constructed_before(scn, obs, i)) > 1
+    lab = {o: "abcdefgh"[k % 8] + ":" for k, o in enumerate(objs)} if several else {}
+    tok = [lab.get(c.get("o", 0), "") + k for c, k in zip(scn["calls"], ks)]
+    opts = options_of(scn, obs, i)
+    if several and clause.startswith("table-"):
+        # what the table of a search object holds when other search objects exist: one class per way of sharing /
+        # construction order (which object the failing call is on and the kinds of the calls are in `what`)
+        return f"C03|{clause}|Search.search|several-search-objects" + "".join(";" + x for x in opts)
+    fp = f"C03|{clause}|Search.search|history={','.join(tok[:i]) or '-'};call={lab.get(scn['calls'][i].get('o', 0), '')}{scn['calls'][i]['kind']}"
+    return fp + "".join(";" + x for x in opts)
+
+
+def history_text(scn, obs, i):
+    """the calls of the (shrunk) history with their search objects, for the `what` of a report"""
+    ks = kinds_of(scn, obs)
+    return ",".join(f"{'abcdefgh'[c.get('o', 0) % 8]}:{k}" for c, k in zip(scn["calls"][: i + 1], ks))
+
+
+def _case_of(scn):
+    return {k: scn[k] for k in ("cls", "backend", "W", "calls", "durs", "objs", "cwd0") if scn.get(k) is not None}
 
 
 def shrink(scn, clause, i, budget=80):
-    """greedy: truncate after the failing call, serial/RandomSearch, drop history calls, simplify kinds,
-    small n / W; keeps a candidate iff the same clause still fails at the (new) last call."""
+    """greedy: truncate after the failing call, no environment (absolute log directories, no chdir), one search
+    object / nothing shared, serial/RandomSearch, drop history calls, simplify kinds, small n / W; keeps a
+    candidate iff the same clause still fails at the (new) last call."""
     best = dict(scn, calls=[dict(c) for c in scn["calls"][: i + 1]])
     best_obs = None
 
@@ -256,6 +467,9 @@ def shrink(scn, clause, i, budget=80):
         last = len(cand["calls"]) - 1
         return o if any(cl == clause and j == last for cl, j, _ in oracle(cand, o)) else None
 
+    def strip(c, *keys):
+        return {k: v for k, v in c.items() if k not in keys}
+
     o = fails(best)
     if o is None:
         return scn, None, i
@@ -264,20 +478,88 @@ def shrink(scn, clause, i, budget=80):
     while changed and budget > 0:
         changed = False
         cands = []
+        calls = best["calls"]
+        last = len(calls) - 1
+        # ---- an earlier call of the current candidate fails the same way: cut there
+        first = min([j for cl, j, _ in oracle(best, best_obs) if cl == clause] or [last])
+        if first < last:
+            cands.append(dict(best, calls=calls[: first + 1]))
+        # ---- the process environment
+        if any(c.get("cd_after") or c.get("cd_in") for c in calls):
+            cands.append(dict(best, calls=[strip(c, "cd_after", "cd_in") for c in calls]))
+            if any(c.get("cd_in") for c in calls):
+                cands.append(dict(best, calls=[strip(c, "cd_in") for c in calls]))
+            if any(c.get("cd_after") for c in calls):
+                cands.append(dict(best, calls=[strip(c, "cd_after") for c in calls]))
+            for j, c in enumerate(calls):  # one change of directory at a time
+                for key in ("cd_after", "cd_in"):
+                    if c.get(key) and sum(1 for x in calls for k2 in ("cd_after", "cd_in") if x.get(k2)) > 1:
+                        cands.append(dict(best, calls=calls[:j] + [strip(c, key)] + calls[j + 1:]))
+        if best.get("objs") and any(not ob.get("log_dir", "abs:L0").startswith("abs:") for ob in best["objs"]):
+            # same directories, given as absolute paths (objects never constructed keep their spec)
+            objs2 = []
+            for j, ob in enumerate(best["objs"]):
+                d = _obj_dir(best, best_obs, j)
+                objs2.append(dict(ob, log_dir="abs:" + "/".join(d)) if d is not None and "<outside>" not in d else dict(ob))
+            cands.append(dict(best, objs=objs2))
+        # ---- several search objects
+        if best.get("objs"):
+            f = calls[last].get("o", 0)
+            used = sorted({c.get("o", 0) for c in calls})
+            for j, ob in enumerate(best["objs"]):  # constructed when needed (or not at all) instead of earlier
+                if ob.get("at") is not None and ob["at"] <= last:
+                    cands.append(dict(best, objs=[{k: v for k, v in x.items() if k != "at"} if j2 == j else x
+                                                  for j2, x in enumerate(best["objs"])]))
+            for o2 in range(len(best["objs"])):  # an object that is only constructed: nothing shared
+                ob = best["objs"][o2]
+                if o2 in used or ob.get("at") is None or ob["at"] > last:
+                    continue
+                if ob["ev"] == best["objs"][f]["ev"]:
+                    ev2 = 1 + max(x["ev"] for x in best["objs"])
+                    cands.append(dict(best, objs=[dict(x, ev=ev2) if j == o2 else x for j, x in enumerate(best["objs"])]))
+            if len(used) > 1:
+                cands.append(dict(best, calls=[dict(c, o=f) for c in calls]))  # all the calls on one object
+                for o2 in used:
+                    if o2 == f:
+                        continue
+                    ob = best["objs"][o2]
+                    if ob["ev"] == best["objs"][f]["ev"]:
+                        ev2 = 1 + max(x["ev"] for x in best["objs"])
+                        cands.append(dict(best, objs=[dict(x, ev=ev2) if j == o2 else x for j, x in enumerate(best["objs"])]))
+                    if _obj_dir(best, best_obs, o2) == _obj_dir(best, best_obs, f):
+                        cands.append(dict(best, objs=[dict(x, log_dir=f"abs:U{o2}") if j == o2 else x for j, x in enumerate(best["objs"])]))
+            if any(ob["cls"] != "RandomSearch" for ob in best["objs"]):
+                cands.append(dict(best, objs=[dict(ob, cls="RandomSearch") for ob in best["objs"]]))
+            if len(used) == 1 and not any(c.get("cd_after") or c.get("cd_in") for c in calls) \
+                    and not any(x.get("at") is not None and x["at"] <= last for x in best["objs"]) \
+                    and best["objs"][f].get("log_dir", "abs:L0").startswith("abs:"):
+                # nothing of the new dimensions is left: back to the plain form
+                cands.append(dict({k: v for k, v in best.items() if k != "objs"}, cls=best["objs"][f]["cls"],
+                                  calls=[strip(c, "o") for c in calls]))
         if best["backend"] != "serial" and not any(c.get("expire") for c in best["calls"]):
             cands.append(dict(best, backend="serial", durs=[0]))
-        if best["cls"] != "RandomSearch":
+        if not best.get("objs") and best["cls"] != "RandomSearch":
             cands.append(dict(best, cls="RandomSearch"))
         for j in range(len(best["calls"]) - 1):
-            cands.append(dict(best, calls=best["calls"][:j] + best["calls"][j + 1:]))
+            cand = dict(best, calls=best["calls"][:j] + best["calls"][j + 1:])
+            if best.get("objs"):  # "constructed before call number at": the calls after j move up
+                cand["objs"] = [dict(x, at=x["at"] - 1) if x.get("at") is not None and x["at"] > j else x for x in best["objs"]]
+            cands.append(cand)
+            oj = best["calls"][j].get("o", 0)
+            if best.get("objs") and best["objs"][oj].get("at") is None and not any(c.get("o", 0) == oj for c in best["calls"][:j]):
+                # the call constructed its object: drop the call, keep the construction at this point
+                cands.append(dict(cand, objs=[dict(x, at=j) if k == oj else x for k, x in enumerate(cand["objs"])]))
         # history calls: towards a plain call (drop the timeout, drop strictness) when the failure persists;
         # failing call: only drop its timeout (its strictness is part of what fails)
         simpler = {"Q": ["P", "S", "T"], "B": ["P", "T"], "S": ["P"], "T": ["P"], "X": ["P"]}
-        last = len(best["calls"]) - 1
+        table_clause = clause.startswith("table-")  # what the table holds: the kind of the failing call is not part of it
         for j, c in enumerate(best["calls"]):
-            opts = simpler.get(c["kind"], []) if j < last else {"Q": ["S"], "B": ["P"]}.get(c["kind"], [])
+            opts = simpler.get(c["kind"], []) if j < last or table_clause else {"Q": ["S"], "B": ["P"]}.get(c["kind"], [])
             for k2 in opts:
                 c2 = {"kind": k2}
+                for extra in ("o", "cd_after", "cd_in"):
+                    if extra in c:
+                        c2[extra] = c[extra]
                 if k2 in "PS":
                     c2["n"] = c.get("n", 1)
                 if k2 == "T":
@@ -291,11 +573,43 @@ def shrink(scn, clause, i, budget=80):
             if c.get("n", 0) > 3:
                 cands.append(dict(best, calls=best["calls"][:j] + [dict(c, n=3)] + best["calls"][j + 1:]))
         for cand in cands:
+            if cand == best:  # (a transformation that changes nothing must not be "accepted" again and again)
+                continue
             o = fails(cand)
             if o is not None:
                 best, best_obs, changed = cand, o, True
                 break
+    t = _tidy(best)
+    if t != best:
+        o = run_scenario(t)
+        if any(cl == clause and j == len(t["calls"]) - 1 for cl, j, _ in oracle(t, o)):
+            best, best_obs = t, o
     return best, best_obs, len(best["calls"]) - 1
+
+
+def _tidy(scn):
+    """drops what has no effect on the judged calls: a change of directory after the last call, search objects
+    no call is made on (they are never constructed); object indices are renumbered -- `obs["objs"]` of the run
+    before keeps the old numbers, so the caller re-observes when it needs them"""
+    calls = [dict(c) for c in scn["calls"]]
+    if calls and "cd_after" in calls[-1]:
+        del calls[-1]["cd_after"]
+    out = dict(scn, calls=calls)
+    if scn.get("objs"):
+        used = []
+        for i, c in enumerate(calls):
+            for j, ob in enumerate(scn["objs"]):  # in the order of construction
+                if ob.get("at") == i and j not in used:
+                    used.append(j)
+            if c.get("o", 0) not in used:
+                used.append(c.get("o", 0))
+        evs = []
+        for o in used:
+            if scn["objs"][o]["ev"] not in evs:
+                evs.append(scn["objs"][o]["ev"])
+        out["objs"] = [dict(scn["objs"][o], ev=evs.index(scn["objs"][o]["ev"])) for o in used]
+        out["calls"] = [dict(c, o=used.index(c.get("o", 0))) for c in calls]
+    return out
 
 
 # --------------------------------------------------------------------------- generator
@@ -392,10 +706,176 @@ def gen_scenarios(ck):
                         c = {"kind": "P", "n": 1}
             calls.append(c)
         out.append({"cls": "RandomSearch" if t % 5 else "CBO", "backend": "thread", "W": W, "calls": calls, "src": "thread"})
+    out += gen_objects_env(ck)
     return out
 
 
-# --------------------------------------------------------------------------- driving
+CLASSES = ("RandomSearch", "CBO", "RegularizedEvolution")
+LOG_DIRS = ("default", "rel:.", "rel:logs", "rel:out/run1", "abs:L0")
+
+
+def _block(rng, o, kinds, serial, nmax=2, expiring=True):
+    """1..nmax calls on search object `o`"""
+    calls = []
+    for _ in range(rng.randint(1, nmax)):
+        c = _rand_call(rng, kinds, serial, 1)
+        if "n" in c:
+            c["n"] = min(c["n"], 3)
+        if serial and "t" in c and c["kind"] != "X":
+            c["t"] = min(c["t"], 3)
+        if not serial and c.get("expire") and not expiring:
+            c["expire"], c["t"] = False, 60
+            if c["kind"] == "T":
+                c = {"kind": "P", "n": 1}
+        c["o"] = o
+        calls.append(c)
+    return calls
+
+
+def _add_chdirs(rng, calls, mode):
+    """mode: 'between' (os.chdir after a call), 'in-run' (a run-function invocation changes it), 'both'"""
+    for j, c in enumerate(calls):
+        if mode in ("between", "both") and j < len(calls) - 1 and rng.random() < 0.8:
+            c["cd_after"] = rng.choice(WORK_DIRS[1:])
+        if mode in ("in-run", "both") and c["kind"] != "X" and rng.random() < 0.7:
+            c["cd_in"] = [rng.randint(1, max(1, c.get("n", 1))), rng.choice(WORK_DIRS[1:])]
+    return calls
+
+
+def gen_objects_env(ck):
+    """histories with several search objects (sharing an evaluator object and / or a log directory; constructed
+    when needed or up-front; used one after the other or in turns) and with a process environment (relative / default log directories, working directory
+    changed between the calls or by the run-function)"""
+    rng = ck.rng
+    out = []
+
+    def durs():
+        return [rng.choice([1, 1, 2, 3]) for _ in range(rng.randint(1, 7))]
+
+    # (f) two search objects, every way of sharing x class of the second x W
+    shares = [("ev+dir", 0, "abs:L0"), ("ev", 0, "abs:L1"), ("dir", 1, "abs:L0"), ("none", 1, "abs:L1")]
+    k = 0
+    for W in ([1, 3] if not ck.thorough else [1, 2, 3, 4]):
+        for name, ev2, dir2 in shares:
+            for rep in range(ck.pick(2, 6)):
+                cls2 = CLASSES[k % 3]
+                k += 1
+                objs = [{"cls": CLASSES[(k // 3) % 3] if rep else "RandomSearch", "ev": 0, "log_dir": "abs:L0"},
+                        {"cls": cls2, "ev": ev2, "log_dir": dir2}]
+                calls = _block(rng, 0, "PSTB", True) + _block(rng, 1, "PPSSTB", True)
+                out.append({"cls": "RandomSearch", "backend": "serial", "W": W, "objs": objs, "calls": calls,
+                            "durs": durs(), "src": "objects:" + name})
+    # chains of three / four objects on one evaluator, directories drawn from two
+    for _ in range(ck.pick(10, 150)):
+        nobj = rng.choice([3, 3, 4])
+        objs = [{"cls": rng.choice(CLASSES), "ev": rng.choice([0, 0, 0, 1]), "log_dir": rng.choice(["abs:L0", "abs:L0", "abs:L1"])}
+                for _ in range(nobj)]
+        calls = []
+        for o in range(nobj):
+            calls += _block(rng, o, "PPSSTBQ", True, nmax=2 if nobj == 3 else 1)
+        out.append({"cls": "RandomSearch", "backend": "serial", "W": rng.choice([1, 2, 3, 4]), "objs": objs,
+                    "calls": calls[:6], "durs": durs(), "src": "objects:chain"})
+    # objects with different directories may be used in turns (on one evaluator object or on two)
+    for t in range(ck.pick(8, 80)):
+        objs = [{"cls": rng.choice(CLASSES), "ev": j if t % 2 else 0, "log_dir": f"abs:L{j}"} for j in range(2)]
+        calls = []
+        for _ in range(rng.choice([3, 4])):
+            calls += _block(rng, rng.choice([0, 1]), "PSTB", True, nmax=1)
+        out.append({"cls": "RandomSearch", "backend": "serial", "W": rng.choice([1, 3]), "objs": objs, "calls": calls,
+                    "durs": durs(), "src": "objects:in-turns"})
+    # construction order: all the objects are constructed up-front (different directories) and then run one
+    # after the other or in turns; or an object is constructed (and not used yet) in the middle of another one's calls
+    for t in range(ck.pick(8, 120)):
+        nobj = rng.choice([2, 2, 3])
+        objs = [{"cls": rng.choice(CLASSES), "ev": rng.choice([0, 0, 0, 1]), "log_dir": f"abs:L{j}", "at": 0} for j in range(nobj)]
+        calls = []
+        if t % 3 == 2:
+            for _ in range(rng.choice([3, 4, 5])):
+                calls += _block(rng, rng.randrange(nobj), "PPSSTB", True, nmax=1)
+        else:
+            for o in range(nobj):
+                calls += _block(rng, o, "PPSSTB", True, nmax=2)
+        out.append({"cls": "RandomSearch", "backend": "serial", "W": rng.choice([1, 2, 3, 4]), "objs": objs, "calls": calls[:6],
+                    "durs": durs(), "src": "objects:up-front"})
+    for t in range(ck.pick(5, 80)):
+        calls = _block(rng, 0, "PPSSTB", True, nmax=2) + _block(rng, 0, "PPSSTB", True, nmax=2)
+        at = rng.randint(1, len(calls) - 1)
+        objs = [{"cls": rng.choice(CLASSES), "ev": 0, "log_dir": "abs:L0"},
+                {"cls": rng.choice(CLASSES), "ev": 0, "log_dir": rng.choice(["abs:L1", "rel:logs", "default"]), "at": at}]
+        if t % 2:
+            calls += _block(rng, 1, "PS", True, nmax=1)
+        out.append({"cls": "RandomSearch", "backend": "serial", "W": rng.choice([1, 3]), "objs": objs, "calls": calls,
+                    "durs": durs(), "src": "objects:constructed-in-between"})
+    # (g) one search object, the process environment: how the log directory is given x who changes the cwd
+    for ld in LOG_DIRS:
+        for mode in ("between", "in-run", "both"):
+            for _ in range(ck.pick(1, 12)):
+                calls = _add_chdirs(rng, _block(rng, 0, "PPSSTBQX", True, nmax=3) + _block(rng, 0, "PS", True, nmax=1), mode)
+                out.append({"cls": "RandomSearch", "backend": "serial", "W": rng.choice([1, 1, 3, 4]),
+                            "objs": [{"cls": rng.choice(CLASSES), "ev": 0, "log_dir": ld}], "calls": calls,
+                            "cwd0": rng.choice(WORK_DIRS[:2]), "durs": durs(), "src": "env:" + mode})
+    # (h) both: several objects, log directories given in any way (two relative ones are the same directory or not
+    # depending on where the process is when they are constructed), cwd changes anywhere
+    for _ in range(ck.pick(14, 200)):
+        nobj = rng.choice([2, 2, 3])
+        objs = [{"cls": rng.choice(CLASSES), "ev": rng.choice([0, 0, 1]), "log_dir": rng.choice(LOG_DIRS)} for _ in range(nobj)]
+        calls = []
+        for o in range(nobj):
+            calls += _block(rng, o, "PPSSTB", True, nmax=2)
+        _add_chdirs(rng, calls, rng.choice(["between", "in-run", "both"]))
+        out.append({"cls": "RandomSearch", "backend": "serial", "W": rng.choice([1, 2, 3, 4]), "objs": objs, "calls": calls[:6],
+                    "durs": durs(), "src": "objects+env"})
+    # (i) thread backend (real time; at most one expiring timeout each)
+    for t in range(ck.pick(6, 48)):
+        nobj = 1 if t % 3 == 1 else 2
+        objs = [{"cls": "RandomSearch" if t % 4 else "CBO", "ev": 0 if t % 2 == 0 else j,
+                 "log_dir": rng.choice(LOG_DIRS) if t % 3 else ("abs:L0" if t % 2 == 0 else f"abs:L{j % 2}")} for j in range(nobj)]
+        calls = []
+        for o in range(nobj):
+            calls += _block(rng, o, "PPSSB" if o else "PSTB", False, nmax=2, expiring=(o == 0 and t % 2 == 0))
+        nexp = 0
+        for c in calls:
+            if c.get("expire"):
+                nexp += 1
+                if nexp > 1:
+                    c["expire"], c["t"] = False, 60
+                    if c["kind"] == "T":
+                        c.update(kind="P", n=1)
+                        c.pop("t"), c.pop("expire")
+        if t % 3:
+            _add_chdirs(rng, calls, rng.choice(["between", "in-run", "both"]))
+        if t % 6 == 3 and nobj == 2:  # constructed up-front, in different directories
+            objs = [dict(ob, log_dir=f"abs:L{j}", at=0) for j, ob in enumerate(objs)]
+        out.append({"cls": "RandomSearch", "backend": "thread", "W": rng.choice([1, 3, 4]), "objs": objs, "calls": calls,
+                    "src": "thread:objects+env"})
+    return out
+
+
+def over_call(scn, obs):
+    """index of the first call made on a search object that is over (another object was constructed or called
+    in its -- observed -- log directory since it was constructed); such a call is outside what is judged.
+    None if there is none (always the case for generated scenarios)."""
+    recs = (obs or {}).get("objs") or {}
+    valid = {}
+
+    def event(o):
+        d = _obj_dir(scn, obs, o)
+        for x in valid:
+            if x != o and d is not None and _obj_dir(scn, obs, x) == d:
+                valid[x] = False
+
+    for i, c in enumerate(scn["calls"]):
+        for bc, o in sorted((r["before_call"], int(o)) for o, r in recs.items()):
+            if bc == i and o not in valid:
+                valid[o] = True
+                event(o)
+        o = c.get("o", 0)
+        if o not in valid:
+            break  # the run stopped before
+        if not valid[o]:
+            return i
+        event(o)
+    return None
 
 
 def _run_chunk(scns):
@@ -425,44 +905,107 @@ def _observe_all(ck, scns):
     return [res[id(s)] for s in scns]
 
 
+def world_request(scn, obs):
+    """the history as events of Model/SearchObjects.lean: constructions (with the log directory as given and
+    the observed working directory), working-directory changes, calls with their observed schedules"""
+    ids = {}
+
+    def path(parts):
+        return [ids.setdefault(x, len(ids)) for x in parts]
+
+    specs = objs_of(scn)
+    evmap, local, nlocal = {}, {}, {}
+    ops = []
+    cwd0 = _parts(scn.get("cwd0", "w0"))
+    mc = [list(cwd0)]  # the model's working directory
+
+    def chdir_to(parts):
+        if parts != mc[0]:
+            mc[0] = list(parts)
+            ops.append({"t": "chdir", "p": path(mc[0])})
+
+    recs = obs.get("objs") or {}
+    for i, (c, r) in enumerate(zip(scn["calls"], obs["calls"])):
+        for bc, o in sorted((rr["before_call"], int(o)) for o, rr in recs.items()):
+            if bc != i or o in local:
+                continue
+            e = evmap.setdefault(specs[o]["ev"], len(evmap))
+            chdir_to(recs[str(o)]["cwd"])
+            local[o] = nlocal.get(e, 0)
+            nlocal[e] = local[o] + 1
+            ld = specs[o].get("log_dir", "abs:L0")
+            if ld == "default":
+                ops.append({"t": "new", "ev": e, "rel": []})
+            elif ld.startswith("rel:"):
+                ops.append({"t": "new", "ev": e, "rel": path(_parts(ld[4:]))})
+            else:
+                ops.append({"t": "new", "ev": e, "abs": path(_parts(ld[4:]))})
+        o = c.get("o", 0)
+        chdir_to(r["cwd_before"])
+        op = dict(lean_call(c, r["env"]), t="call", ev=evmap[specs[o]["ev"]], o=local[o])
+        if r["cwd_after"] != mc[0]:
+            mc[0] = list(r["cwd_after"])
+            op["cwd_after"] = path(mc[0])
+        ops.append(op)
+    return {"op": "world", "W": scn["W"], "nev": max(1, len(evmap)), "cwd": path(cwd0), "ops": ops}
+
+
 def _check(ck, scns, obss, drv, do_shrink=True):
     reqs = []
-    for scn, obs in zip(scns, obss):
-        calls = []
-        for c, r in zip(scn["calls"], obs["calls"]):
-            calls.append(lean_call(c, r["env"]))
-        reqs.append({"op": "calls", "W": scn["W"], "calls": calls})
+    for k, (scn, obs) in enumerate(zip(scns, obss)):
+        cut = over_call(scn, obs)
+        if cut is not None:  # not generated; a replayed / hand-written case: judged up to there
+            ck.count("outside-discipline(call on a search object that is over)")
+            scns[k] = scn = dict(scn, calls=scn["calls"][:cut])
+            obss[k] = obs = dict(obs, calls=obs["calls"][:cut], error=None if len(obs["calls"]) >= cut else obs["error"])
+        reqs.append(world_request(scn, obs))
     reps = drv.ask_all(reqs)
+    open_fps = {e["fingerprint"] for e in (getattr(ck, "known", None) or {}).get("open", []) if e.get("property") == "C03"}
     for scn, obs, rep in zip(scns, obss, reps):
-        case = {k: scn[k] for k in ("cls", "backend", "W", "calls") if k in scn}
-        if scn.get("durs") is not None:
-            case["durs"] = scn["durs"]
+        case = _case_of(scn)
         ks = kinds_of(scn, obs)
         ck.case(case, nontrivial=len(scn["calls"]) >= 2)
         ck.count("src:" + scn.get("src", "?"))
         ck.count("backend:" + scn["backend"])
-        ck.count("cls:" + scn["cls"])
+        specs = objs_of(scn)
+        for o in sorted({c.get("o", 0) for c in scn["calls"]}):
+            ck.count("cls:" + specs[o]["cls"])
+            ld = specs[o].get("log_dir", "abs:L0")
+            ck.count("log_dir:" + ("default" if ld == "default" else ld[:3]))
         ck.count(f"W={scn['W']}")
         ck.count(f"len={len(scn['calls'])}")
+        ck.count(f"objects={len({c.get('o', 0) for c in scn['calls']})}")
+        for x in options_of(scn, obs, len(scn["calls"]) - 1) if scn["calls"] else []:
+            ck.count("dim:" + x)
+        if any(r["cwd_after"] != r["cwd_before"] for r in obs["calls"]):
+            ck.count("cwd-changed-during-a-call")
         for k in ks:
             ck.count("call:" + k)
         for a, b in zip(ks, ks[1:]):
             ck.count(f"pair:{a}>{b}")
         # ---- L3
+        explained = False
         fails = oracle(scn, obs)
         for clause, i, detail in fails[:1]:
             s2, o2, i2 = (scn, obs, i)
-            if do_shrink and clause != "raises":
-                s2, o2, i2 = shrink(scn, clause, i)
+            if do_shrink and (clause != "raises" or "vloop" not in str(detail)):
+                # (an exception is shrunk too, with a smaller budget, unless it is the virtual loop's live-lock guard)
+                s2, o2, i2 = shrink(scn, clause, i, budget=80 if clause != "raises" else 30)
                 if o2 is None:
                     s2, o2, i2 = scn, obs, i
             i2 = min(i2, len(s2["calls"]) - 1)
-            c2 = {k: s2[k] for k in ("cls", "backend", "W", "calls", "durs") if k in s2}
+            c2 = _case_of(s2)
+            explained = fingerprint(clause, s2, o2, i2) in open_fps
             ck.fail(fingerprint(clause, s2, o2, i2),
-                    f"search() call #{i2} ({call_kwargs(s2['calls'][i2])}) after history {kinds_of(s2, o2, i2)}: {clause}",
+                    f"search() call #{i2} ({call_kwargs(s2['calls'][i2])}) after history {kinds_of(s2, o2, i2)} (objects: {history_text(s2, o2, i2)})"
+                    f"{' [' + ', '.join(options_of(s2, o2, i2)) + ']' if options_of(s2, o2, i2) else ''}: {clause}",
                     c2, {"observed": o2, "first_detail": detail, "unshrunk": case})
         # ---- L2
         if obs["error"]:
+            continue
+        if explained:
+            # an OPEN known finding of this tree (known_findings.d/C03.json): the model describes the repaired code
+            ck.count("L2_not_compared(history fails by an open known finding)")
             continue
         for i, (c, r, m) in enumerate(zip(scn["calls"], obs["calls"], rep["outs"])):
             ck.count("model_stop:" + m["stop"])
@@ -479,8 +1022,11 @@ def _check(ck, scns, obss, drv, do_shrink=True):
                     diff["stop"] = m["stop"]
                 if m["evals"] != r["evals"]:
                     diff["evals"] = (r["evals"], m["evals"])
-                if m["table"] != want_rows:
-                    diff["table"] = (want_rows, m["table"])
+                mt = m["table"]
+                if (None if mt is None else mt["rows"]) != want_rows:
+                    diff["table"] = (want_rows, mt)
+                elif mt is not None and mt["ok"] != (not r.get("cols_bad")):
+                    diff["table_columns"] = (r.get("cols_bad"), mt)
                 if m["asks"] != r["asks"]:
                     diff["asks"] = (r["asks"], m["asks"])
                 if (m["stop"] in ("cap", "timeout")) != r["stopped"]:
@@ -506,12 +1052,19 @@ def run(ck):
     ck.rule = ("sequences of <= 4 search() calls over {plain n, strict n, timeout t, timeout+n, timeout+strict n, invalid "
                "timeout} x n in {0,1,2,3,5} x W in {1,2,3,4} x {serial (virtual clock, job durations 0-3 ticks), thread "
                "(real time)} x {RandomSearch, CBO/ET, RegularizedEvolution}: all ordered pairs (+triples) of kinds "
-               "systematically, repeated-strict family, random sequences; distinct by canonical scenario; non-trivial = "
-               "at least 2 calls")
+               "systematically, repeated-strict family, random sequences; x histories with 2-4 search objects (any "
+               "classes) on the same / another evaluator object in the same / another log directory (every way of "
+               "sharing), constructed when needed / all up-front / in the middle of another one's calls, used one after "
+               "the other or in turns x process environment: log_dir "
+               "absolute / relative / '.' / default, os.chdir between the calls and / or inside the run-function (all under "
+               "a temporary root, cwd restored); each search object judged on its own calls; distinct by canonical "
+               "scenario; non-trivial = at least 2 calls")
     ck.assumptions = [
         "asyncio.wait(FIRST_COMPLETED) reports between 1 and W finished tasks (observed per iteration through the public tell(); a value outside the contract makes the model answer badEnv)",
         "the clock reading of time_left after each gather is an input of the model (observed with the code's own float expression on the virtual clock; thread backend: by construction of the scenario -- timeouts that certainly expire (jobs wait for CANCELLING + 0.25 s) or certainly do not (60 s, instant jobs))",
-        "dump_jobs_done_to_csv writes every gathered job (its internals are C04's model); the table is compared by its number of rows",
+        "dump_jobs_done_to_csv writes every gathered job (its internals are C04's model); the table is compared by its number of rows, by its column names being the declared ones (p:<hyperparameter>, objective, job_id, job_status, m:<metadata>) and by its job ids being those the run-function was invoked for by the calls on this search object",
+        "a log directory holds the results of one search at a time (constructing a Search renames the results file found in its directory): a search object is over once another one is constructed or called in its directory; a call on an object that is over is not generated and not judged. Search objects with different directories use an evaluator object in any order (one after the other, all constructed up-front, in turns)",
+        "the working directory of the process at each construction / after each call is an input of the model (observed with os.getcwd())",
     ]
     ck.trusted_extra = ["harness/vloop.py (virtual-time event loop, patched time of deephyper.evaluator._evaluator)"]
     scns = _corpus() + gen_scenarios(ck)
@@ -541,11 +1094,12 @@ def search(ck):
         calls = [_rand_call(rng, "PSTBQ", True, 1) for _ in range(rng.choice([2, 3, 4, 5]))]
         scns.append({"cls": "RandomSearch", "backend": "serial", "W": W, "calls": calls,
                      "durs": [rng.choice([1, 2, 3]) for _ in range(rng.randint(1, 9))], "src": "search"})
+    scns += gen_objects_env(ck)
     obss = _observe_all(ck, scns)
     for scn, obs in zip(scns, obss):
         for clause, i, detail in oracle(scn, obs)[:1]:
             s2, o2, i2 = shrink(scn, clause, i)
             if o2 is None:
                 s2, o2, i2 = scn, obs, i
-            c2 = {k: s2[k] for k in ("cls", "backend", "W", "calls", "durs") if k in s2}
+            c2 = _case_of(s2)
             ck.fail(fingerprint(clause, s2, o2, i2), f"search() call #{i2}: {clause}", c2, {"observed": o2, "detail": detail})
